@@ -380,6 +380,7 @@ package astits
 //@   ensures [C12,C16] fresh: err == nil ==> h != nil && fresh(h)
 //@   ensures [C12] start: err == nil ==> dataStart == o + 3 + hl
 //@   ensures [C12,C03] offset: err == nil ==> i.offset == o + consumed
+//@   ensures [C12,C01] relen: err == nil && !hasCRC && !hasPack && (hasExt2 ==> e2len == len(h.Extension2Data)) ==> ohEnd(h) == consumed
 //@   ensures [C12] byte0: err == nil ==> h.MarkerBits == b0 >> 6 && h.ScramblingControl == b0 >> 4 & 3 && h.Priority == bit(b0, 0x08) && h.DataAlignmentIndicator == bit(b0, 0x04) && h.IsCopyrighted == bit(b0, 0x02) && h.IsOriginal == bit(b0, 0x01)
 //@   ensures [C12] byte1: err == nil ==> h.PTSDTSIndicator == ind && h.HasESCR == hasESCR && h.HasESRate == hasRate && h.HasDSMTrickMode == hasTrick && h.HasAdditionalCopyInfo == hasCopy && h.HasCRC == hasCRC && h.HasExtension == hasExt
 //@   ensures [C12] hlen: err == nil ==> h.HeaderLength == u8(hl)
